@@ -208,4 +208,6 @@ class BUnit:
             cex = r.model
         elif r.status == "undecided":
             detail = "solver answered unknown/timeout (%s): %s" % (r.reason, what)
+        if os.environ.get("VERIF_TRACE"):
+            print("  [trace] %s %s %.1fs %s:%s" % (r.status, r.backend, r.seconds, unit, nm[:110]), flush=True)
         self.ctx.add(Obligation(unit + ":" + nm, unit, r.backend, r.status, r.seconds, detail, function=function, cex=cex))
